@@ -17,6 +17,36 @@ use time::{Date, Duration, Month, Weekday};
 
 pub const CACHE_DIR: &str = "/simfs/home/.acb";
 
+/// C14 sometimes keeps the cache in a directory whose path is NOT valid UTF-8 (legal on Linux: a
+/// home directory named in Latin-1). The bytes the code under test sees, and the String under which
+/// SimFs keys the same directory.
+pub const ODD_CACHE_DIR_BYTES: &[u8] = b"/simfs/home/caf\xE9/.acb";
+pub const ODD_CACHE_DIR_KEY: &str = "/simfs/home/caf\u{e9}/.acb";
+static ODD_CACHE_DIR: std::sync::atomic::AtomicBool = std::sync::atomic::AtomicBool::new(false);
+
+pub fn set_odd_cache_dir(on: bool) {
+    ODD_CACHE_DIR.store(on, std::sync::atomic::Ordering::SeqCst);
+}
+
+/// The cache directory of the current scenario, as SimFs keys it.
+pub fn cache_dir_key() -> &'static str {
+    if ODD_CACHE_DIR.load(std::sync::atomic::Ordering::SeqCst) {
+        ODD_CACHE_DIR_KEY
+    } else {
+        CACHE_DIR
+    }
+}
+
+/// ... and as the path handed to the code under test.
+pub fn cache_dir_path() -> std::path::PathBuf {
+    use std::os::unix::ffi::OsStringExt;
+    if ODD_CACHE_DIR.load(std::sync::atomic::Ordering::SeqCst) {
+        std::path::PathBuf::from(std::ffi::OsString::from_vec(ODD_CACHE_DIR_BYTES.to_vec()))
+    } else {
+        std::path::PathBuf::from(CACHE_DIR)
+    }
+}
+
 pub fn ymd(y: i32, m: u8, d: u8) -> Date {
     Date::from_calendar_date(y, Month::try_from(m).unwrap(), d).unwrap()
 }
@@ -534,6 +564,7 @@ pub fn run_fx_process(plan: FxPlan) -> FxObs {
     env.clock_tz_hours_west = plan.clock_tz;
     env.now_shift = plan.now_shift;
     let FxPlan { data, today, published_today, force, cache, mem_in, lookups, app_rows, app_files, app_console, app_legacy_date, app_date_fmt, net_faults, server_today, .. } = plan;
+    let cache_dir = cache_dir_path();
     let out: ProcOut<Inner> = run_process(&env, move || {
         use acb::fx::io::{CsvRatesCache, InMemoryRatesCache, RateLoader, RatesCache};
         use acb::util::rw::WriteHandle;
@@ -544,7 +575,7 @@ pub fn run_fx_process(plan: FxPlan) -> FxObs {
         let cache_box: Box<dyn RatesCache> = match cache {
             CacheKind::Csv => {
                 mem_handle = None;
-                Box::new(CsvRatesCache::new(std::path::PathBuf::from(CACHE_DIR), err.clone()))
+                Box::new(CsvRatesCache::new(cache_dir, err.clone()))
             }
             CacheKind::Mem => {
                 let c = InMemoryRatesCache::new();
@@ -730,7 +761,7 @@ pub fn persisted_dates(cache: &CacheKind, mem: &MemState) -> BTreeMap<i32, BTree
             }
         }
         CacheKind::Csv => {
-            let files = with_world(|w| w.fs.disk.list_files(CACHE_DIR));
+            let files = with_world(|w| w.fs.disk.list_files(cache_dir_key()));
             for (name, data) in files {
                 if let Some(y) = name.strip_prefix("rates-").and_then(|s| s.strip_suffix(".csv")).and_then(|s| s.parse::<i32>().ok()) {
                     let e = out.entry(y).or_default();
